@@ -110,7 +110,7 @@ def op_run(enabled: bool = True, fault: dict[str, Any] | None = None) -> dict[st
 
 class C05(Engine):
 	prop = 'C05'
-	rule = ('case = one history (4-14 ops: edit/touch/run/clear/lose, runs optionally with one injected fault) over a generated module pool; '
+	rule = ('case = one history (4-14 ops: edit/touch/run/clear/lose/truncate, runs optionally with one injected fault) over a generated module pool; '
 		'every run is compared with the same run from an empty cache. distinct_nontrivial = distinct op-kind/fault-kind sequences that contain '
 		'at least one state-changing op (edit of content, clear, lost file, fault) between two judged runs')
 	quick_runs = 70
@@ -216,6 +216,22 @@ class C05(Engine):
 					combos = combos[which::step]
 				for nth, kind, km in combos:
 					cases.append({'pool': pool, 'kind': 'enumeration', 'ops': pre + [op_run(fault={'kind': kind, 'nth': nth, 'kmode': km}), op_run()]})
+		# truncation pass: each class of cache file cut at byte offsets (head, interior, tail), then a normal run
+		quick = getattr(self, 'tier', 'quick') == 'quick'
+		offs: list[tuple[str, int]] = [('abs', 0), ('abs', 1), ('frac', 5000), ('end', 1)] if quick else \
+			[('abs', k) for k in (0, 1, 2, 3, 7, 16, 64)] + [('frac', f) for f in range(300, 10000, 450)] + [('end', k) for k in (1, 2, 3, 4, 8, 17, 65)]
+		for which in ((0,) if quick else (0, 1)):
+			pool = pools.fixed_pool(which)
+			mods = pools.core(pool)
+			for cls, m in (('tree', mods[-1]), ('symbols', mods[0]), ('symbols', mods[-1]), ('parser', None), ('tree', mods[0])):
+				if quick and (cls, m) in (('symbols', mods[-1]), ('tree', mods[0])):
+					continue
+				for off in offs:
+					t = {'op': 'truncate', 'cls': cls, 'off': off}
+					if m:
+						t['m'] = m
+					cases.append({'pool': pool, 'kind': 'truncation', 'ops': [op_run(), t, op_run()]})
+				cases.append({'pool': pool, 'kind': 'truncation', 'ops': [op_run(), {**t, 'off': ('frac', 5000), 'zeros': True}, op_run()]})
 		return cases
 
 	def generate(self, rng: random.Random, index: int) -> dict[str, Any]:
@@ -247,6 +263,10 @@ class C05(Engine):
 				ops.append(op_run(enabled, fault))
 			elif r == 'clear':
 				ops.append({'op': 'clear'})
+			elif faulty and rng.random() < 0.4:
+				mode = rng.choice(['abs', 'end', 'frac'])
+				ops.append({'op': 'truncate', 'cls': rng.choice(['tree', 'symbols', 'parser']), 'pick': round(rng.random(), 4), 'zeros': rng.random() < 0.2,
+					'off': [mode, rng.randrange(10000) if mode == 'frac' else rng.choice([0, 1, 2, 3, 5, 8, 13, 100])]})
 			else:
 				ops.append({'op': 'lose', 'pick': round(rng.random(), 4), 'cls': rng.choice([None, 'tree', 'symbols', 'parser'])})
 		if ops[-1]['op'] != 'run':
